@@ -350,18 +350,22 @@ def specs(prog, chk):
     empty = True
     n_ok = 0
     for b, i, s in sp.all_stmts():
-        if "lhs" in s and s["lhs"][0] == 0 and not s["lhs"][1] and s["rv"]["k"] == "aggr" and s["rv"].get("variant") == "Ok":
+        if "lhs" in s and s["lhs"][0] in sp.ret_locals and not s["lhs"][1] and s["rv"]["k"] == "aggr" and s["rv"].get("variant") == "Ok":
+            # (OutputList::new(), None), or a struct that carries the two
+            comps = R.result_components(sp, s["rv"]["ops"][0])
+            if comps is None:
+                continue
             n_ok += 1
-            o = R.origin(sp, s["rv"]["ops"][0])
-            # tuple(OutputList::new(), None)
-            tup = sp.single_def(op_place(s["rv"]["ops"][0])[0]) if op_place(s["rv"]["ops"][0]) else None
             good = False
-            if tup and tup[1] != R.TERM and tup[2]["k"] == "aggr" and tup[2]["ak"] == "tuple":
-                p0, _ = R.call_origin_path(sp, tup[2]["ops"][0])
-                o1 = sp.chase(tup[2]["ops"][1])
+            if len(comps["events"]) == 1 and len(comps["bbox"]) == 1:
+                p0, _ = R.call_origin_path(sp, comps["events"][0])
+                o1 = sp.chase(comps["bbox"][0])
                 good = p0 == "svgdx::events::OutputList::new" and o1[0] == "rv" and o1[1].get("variant") == "None"
             empty = empty and good
-    chk.ob(n_ok >= 1 and empty, "A13.specs-empty", "SpecsElement:return", sp.where(), "SpecsElement returns an empty event list and no bbox", "SpecsElement can return events or a bbox")
+    if n_ok == 0:
+        chk.undecided("A13.specs-empty", "SpecsElement:return", sp.where(), "no successful exit of SpecsElement builds its result (events, box) in a form this rule reads")
+    else:
+      chk.ob(n_ok >= 1 and empty, "A13.specs-empty", "SpecsElement:return", sp.where(), "SpecsElement returns an empty event list and no bbox", "SpecsElement can return events or a bbox")
     # in_specs flag pairing
     assigns = R.field_assigns(sp, (".in_specs",))
     opens = [(b, i) for (b, i, s) in assigns if const_bool(s["rv"].get("op")) is True]
